@@ -226,7 +226,10 @@ class ECCMan(object):
 
         if pad: # Strip the null bytes if we padded the message before decoding
             msg_repaired = msg_repaired[len(pad):len(msg_repaired)]
-        return _bytes(msg_repaired), _bytes(ecc_repaired)
+        msg_repaired, ecc_repaired = _bytes(msg_repaired), _bytes(ecc_repaired)
+        if len(ecc_repaired) < self.n-k: # the polynomials of the brownanrs library do not store the leading null coefficients (eg, if the whole codeword is null, the ecc is returned as one single null symbol), so we left pad the ecc back to its real length
+            ecc_repaired = b'\x00' * (self.n-k-len(ecc_repaired)) + ecc_repaired
+        return msg_repaired, ecc_repaired
 
     def pad(self, message, k=None):
         '''Automatically left pad with null bytes a message if too small, or leave unchanged if not necessary. This allows to keep track of padding and strip the null bytes after decoding reliably with binary data. Equivalent to shortening (shortened reed-solomon code).'''
